@@ -510,15 +510,38 @@ def _r6(ctx):
 
 
 def _ctor_rejects_host_bits(P, self_ty):
-    """the type's only constructor refuses addresses with host bits (Ipv4Subnet::new)"""
+    """the type's only constructor refuses addresses with host bits (Ipv4Subnet::new): Ok(..) is built only on the edge where
+    (address as given) & !netmask == 0 — the address tested is the parameter itself, not something already masked"""
+    from ..cfg import cfg_of as _cfg_of
     for fid, b in P.bodies.items():
-        if b.kind == "assoc_fn" and b.impl_self == self_ty and fid.endswith("::new"):
-            T = terms(P, b)
-            for bb, idx, s in b.stmts():
-                if "rv" in s and s["rv"]["k"] == "bin" and s["rv"]["op"] in ("Ne", "Eq"):
-                    t = norm(T.rvalue(s["rv"], bb, idx))
-                    if any(x[0] == "bin" and x[1] == "BitAnd" for x in subterms(t)):
-                        return any(st["p"] == (0,) and "rv" in st and st["rv"]["k"] == "agg" and st["rv"].get("variant") == "Err" for _, _, st in b.stmts())
+        if not (b.kind == "assoc_fn" and b.impl_self == self_ty and fid.endswith("::new")):
+            continue
+        cfg = _cfg_of(b)
+
+        def tests_given_address(d):
+            if not (d[0] == "bin" and d[1] in ("Ne", "Eq")):
+                return False
+            x, z = norm(d[2]), norm(d[3])
+            if not is_const(z, 0):
+                x, z = z, x
+            if not (is_const(z, 0) and x[0] == "bin" and x[1] == "BitAnd"):
+                return False
+            sides = [norm(x[2]), norm(x[3])]
+            mask = [t for t in sides if any(y[0] == "un" and y[1] == "Not" for y in subterms(t)) and any(y[0] == "call" and str(y[1]).endswith("::netmask") for y in subterms(t))]
+            addr = [t for t in sides if t not in mask]
+            if len(mask) != 1 or len(addr) != 1:
+                return False
+            a = addr[0]
+            given = any(y == ("param", 1) for y in subterms(a))
+            premasked = any(y[0] == "call" and str(y[1]).rsplit("::", 1)[-1] in ("network", "netmask", "broadcast") for y in subterms(a)) or \
+                any(y[0] == "bin" and y[1] in ("BitAnd", "BitOr") for y in subterms(a))
+            return given and not premasked
+        good_edges = []
+        for sbb, d, te, fe in bool_switches(P, b, tests_given_address):
+            good_edges += fe if d[1] == "Ne" else te
+        oks = [bb for bb, idx, st in b.stmts() if st["p"] == (0,) and "rv" in st and st["rv"]["k"] == "agg" and st["rv"].get("variant") == "Ok"]
+        if good_edges and oks and all(edge_dominated(cfg, good_edges, bb) for bb in oks):
+            return True
     return False
 
 
